@@ -200,6 +200,18 @@ def PMsg.fields (p : PMsg) : List Field :=
 /-- proto.Marshal(pbm) -/
 def encodePMsg (p : PMsg) : Bytes := encodeMsg p.fields
 
+/-- impl.Empty -/
+def Msg.empty (m : Msg) : Bool := m.blocks.isEmpty && m.wl.isEmpty && m.pres.isEmpty
+
+/-- impl.Size: block bytes + BlockPresenceSize of every presence + proto.Size of every wantlist entry -/
+def Msg.size (m : Msg) : Nat :=
+  (m.blocks.map (fun b => b.2.length)).sum
+  + (m.pres.map (fun x => (encodeMsg (PPres.fields ⟨x.1, 0⟩)).length)).sum
+  + (m.wl.map (fun e => (encodeMsg e.toPB.fields).length)).sum
+
+/-- impl.Haves / impl.DontHaves -/
+def Msg.presOf (m : Msg) (t : Int) : List Bytes := (m.pres.filter (fun x => x.2 == t)).map (·.1)
+
 /-! decoding of field lists (scalars: last occurrence wins; repeated: wire order) -/
 
 def PEntry.ofFields (fs : List Field) : PEntry :=
@@ -215,32 +227,105 @@ def PBlock.ofFields (fs : List Field) : PBlock :=
 def PPres.ofFields (fs : List Field) : PPres :=
   { cid := (lastBytes? 1 fs).getD [], ty := intDec32 ((lastVarint? 2 fs).getD 0) }
 
-def decodeAll {α : Type} (f : List Field → α) : List Bytes → Option (List α)
+def decodeAllWith {α : Type} (dec : Bytes → Option (List Field)) (f : List Field → α) : List Bytes → Option (List α)
   | [] => some []
   | b :: r =>
-    match decodeMsg b, decodeAll f r with
+    match dec b, decodeAllWith dec f r with
     | some fs, some xs => some (f fs :: xs)
     | _, _ => none
 
-/-- proto.Unmarshal restricted to what Marshal produces: one wantlist field at most -/
-def decodePMsg (b : Bytes) : Option PMsg :=
-  match decodeMsg b with
+/-- all occurrences of an embedded message field merged: the concatenation of their field lists -/
+def mergeAll (dec : Bytes → Option (List Field)) : List Bytes → Option (List Field)
+  | [] => some []
+  | b :: r =>
+    match dec b, mergeAll dec r with
+    | some fs, some gs => some (fs ++ gs)
+    | _, _ => none
+
+/-- proto.Unmarshal into pb.Message over a field-loop reader `dec`: scalars – last occurrence wins;
+repeated fields – wire order; the singular `wantlist` message – all occurrences merged; a known field
+number with another wire type is an unknown field (the accessors only look at the expected type);
+an undecodable embedded message fails the whole parse. -/
+def decodePMsgWith (dec : Bytes → Option (List Field)) (b : Bytes) : Option PMsg :=
+  match dec b with
   | none => none
   | some fs =>
     let wl : Option (Option (List PEntry × Bool)) :=
-      match lastBytes? 1 fs with
-      | none => some none
-      | some wb =>
-        match decodeMsg wb with
+      match allBytes 1 fs with
+      | [] => some none
+      | wbs =>
+        match mergeAll dec wbs with
         | none => none
         | some wfs =>
-          match decodeAll PEntry.ofFields (allBytes 1 wfs) with
+          match decodeAllWith dec PEntry.ofFields (allBytes 1 wfs) with
           | none => none
           | some es => some (some (es, (lastVarint? 2 wfs).getD 0 != 0))
-    match wl, decodeAll PBlock.ofFields (allBytes 3 fs), decodeAll PPres.ofFields (allBytes 4 fs) with
+    match wl, decodeAllWith dec PBlock.ofFields (allBytes 3 fs), decodeAllWith dec PPres.ofFields (allBytes 4 fs) with
     | some w, some pl, some pr =>
       some { wantlist := w, blocks := allBytes 2 fs, payload := pl, presences := pr,
              pendingBytes := intDec32 ((lastVarint? 5 fs).getD 0) }
     | _, _, _ => none
+
+/-- the reader for bytes written by Marshal (Lib.Proto's field loop; no groups) -/
+def decodePMsg (b : Bytes) : Option PMsg := decodePMsgWith decodeMsg b
+
+/-! ### proto.Unmarshal of ARBITRARY bytes (protobuf-go impl/decode.go + protowire) -/
+
+/-- tag of a field inside a message: field numbers 1 … 2^29-1 (`protowire.MaxValidNumber`) -/
+def consumeTagImpl (b : Bytes) : Option (Nat × Nat × Bytes) :=
+  match consumeU64 b with
+  | none => none
+  | some (v, r) => if v / 8 < 1 ∨ v / 8 > 2 ^ 29 - 1 then none else some (v / 8, v % 8, r)
+
+mutual
+/-- `protowire.ConsumeFieldValue` for a start-group tag: skip fields up to the matching end-group -/
+def skipGroup : Nat → Nat → Bytes → Option Bytes
+  | 0, _, _ => none
+  | fuel + 1, g, b =>
+    match consumeTag b with                     -- protowire.ConsumeTag: 1 ≤ num ≤ MaxInt32
+    | none => none
+    | some (num, wt, r) =>
+      if wt = 4 then (if num = g then some r else none)
+      else match skipVal fuel num wt r with
+        | none => none
+        | some r' => skipGroup fuel g r'
+/-- `protowire.ConsumeFieldValue`: the bytes after one field value -/
+def skipVal : Nat → Nat → Nat → Bytes → Option Bytes
+  | 0, _, _, _ => none
+  | fuel + 1, num, wt, b =>
+    if wt = 3 then skipGroup fuel num b
+    else match consumeVal wt b with              -- wire types 0,1,2,5; 4,6,7 are errors
+      | none => none
+      | some (_, r) => some r
+end
+
+/-- the field loop of `unmarshalPointerEager` (groupTag = 0): known wire types are kept as fields,
+groups (always unknown for this schema) are skipped, a stray end-group or a reserved wire type fails -/
+def unmarshalFieldsAux : Nat → Bytes → Option (List Field)
+  | 0, _ => none
+  | fuel + 1, b =>
+    if b = [] then some []
+    else match consumeTagImpl b with
+      | none => none
+      | some (num, wt, r) =>
+        if wt = 4 then none
+        else if wt = 3 then
+          match skipGroup fuel num r with
+          | none => none
+          | some r' => unmarshalFieldsAux fuel r'
+        else match consumeVal wt r with
+          | none => none
+          | some (v, r') =>
+            match unmarshalFieldsAux fuel r' with
+            | none => none
+            | some fs => some (⟨num, v⟩ :: fs)
+
+def unmarshalFields (b : Bytes) : Option (List Field) := unmarshalFieldsAux (b.length + 1) b
+
+/-- proto.Unmarshal(b, &pb.Message{}) -/
+def unmarshalPMsg (b : Bytes) : Option PMsg := decodePMsgWith unmarshalFields b
+
+/-- message.FromNet after the length prefix: Unmarshal, then newMessageFromProto -/
+def fromWire (H : Hash) (b : Bytes) : Option Msg := (unmarshalPMsg b).bind (fromProto H)
 
 end C34
